@@ -59,3 +59,22 @@ Proof.
 Qed.
 
 End Cor.
+
+(* C16: a dataset loaded with bid = ask = price(symbol) on every call is a constant zero-spread dataset *)
+From Coq Require Import Reals.
+From Alator Require Import Proofs.EndToEnd16.
+Lemma load_dataset_const (price : string -> R) (calls : list (R * R * Z * string)) :
+  (forall b a d s, In (b, a, d, s) calls -> a = price s /\ b = price s) ->
+  dataset_const price (load calls).
+Proof.
+  intros Hc date row Hg k q Hin.
+  pose proof (load_row_member_shown calls date row k q Hg Hin) as Hs.
+  rewrite load_shows_last_call in Hs.
+  clear Hg Hin. induction calls as [|c calls IH]; cbn [last_call] in Hs; [discriminate|].
+  destruct (last_call calls date k) as [q'|] eqn:El.
+  - injection Hs as ->. apply IH; [|reflexivity]. intros b a d s Hi. apply (Hc b a d s). right. exact Hi.
+  - destruct (Z.eqb date (c_date c) && String.eqb k (c_sym c)) eqn:E; [|discriminate].
+    injection Hs as <-. destruct c as [[[b a] d] s]. apply andb_true_iff in E. destruct E as [_ E].
+    apply String.eqb_eq in E. cbn [c_sym snd] in E. subst s. cbn [c_quote q_ask q_bid].
+    apply (Hc b a d k). left. reflexivity.
+Qed.
